@@ -397,6 +397,11 @@ def part_matrix(ctx, d, dist):
             if a != bb:
                 stems = [s for s in sorted(set(a) | set(bb)) if a.get(s) != bb.get(s)]
                 probs.append("records differ in " + ",".join(stems))
+            if v.get("redirect_two"):
+                # a redirect file that was asked for as two files must be two files, whatever the layout of the main output
+                for stem in res["files"]:
+                    if stem.endswith(".1") and not stem.startswith("out") and (stem[:-2] + ".2") not in res["files"]:
+                        probs.append("records differ in layout: %s was written, its partner file for the second reads was not" % res["files"][stem]["name"])
             in_qual = has_qual and not v.get("fasta_in")
             for stem, f in res["files"].items():
                 if f["fmt"] is None:
